@@ -10,6 +10,9 @@ package main
 //                      IRCServer.TrustedBridge, the sessions (from Marshal) and the
 //                      output lines produced by every raft entry since the previous
 //                      cfgobs of this process lifetime.
+//   step "cfgrepost"   (live node) what an operator does with robustirc-config: GET /config,
+//                      POST the very same body back (revision header of the GET unless
+//                      `headers` overrides it; the value "<omit>" sends no header).
 //   step "cfgbattery"  (live node) the behaviour battery below, every message proposed
 //                      through the real raft node.
 //   replica hook       (observer process of step "replica") same projection + the same
@@ -427,6 +430,35 @@ func init() {
 		ex["raftLast"] = last
 		r.Extra = ex
 		r.Body = ""
+	}
+
+	rigExtraSteps["cfgrepost"] = func(c *rigChild, st rigStep, r *rigResult) {
+		get := c.newRequest(context.Background(), rigStep{}, "GET", "/config", nil, "none", "correct")
+		resp, err := c.client.Do(get)
+		if err != nil {
+			r.Err = "GET /config: " + err.Error()
+			return
+		}
+		body, _ := ioutil.ReadAll(io.LimitReader(resp.Body, 1<<20))
+		resp.Body.Close()
+		rev := resp.Header.Get("X-RobustIRC-Config-Revision")
+		if st.Headers == nil {
+			st.Headers = map[string]string{}
+		}
+		if _, ok := st.Headers["X-RobustIRC-Config-Revision"]; !ok {
+			st.Headers["X-RobustIRC-Config-Revision"] = rev
+		}
+		req := c.newRequest(context.Background(), st, "POST", "/config", bytes.NewReader(body), "none", "correct")
+		if st.Headers["X-RobustIRC-Config-Revision"] == "<omit>" {
+			req.Header.Del("X-RobustIRC-Config-Revision")
+		}
+		c.do(req, r)
+		if r.Extra == nil {
+			r.Extra = map[string]interface{}{}
+		}
+		r.Extra["revisionBefore"] = rev
+		r.Extra["getStatus"] = resp.StatusCode
+		r.Extra["repostLen"] = len(body)
 	}
 
 	rigExtraSteps["cfgbattery"] = func(c *rigChild, st rigStep, r *rigResult) {
